@@ -19,6 +19,7 @@ pub struct Violation {
 
 #[derive(Clone, Debug, Default)]
 pub struct Stats {
+    pub ambiguous_handles: u32,
     pub replay_deferred_by_window: u32,
     pub partial_writes: u32,
     pub cancels: u32,
@@ -140,6 +141,7 @@ pub struct Model<'a> {
     /// (request, session epoch) behind each handle: binds the handle to its flight once the packet
     /// is transmitted later than the operation that returned it
     handle_req: Vec<Option<(usize, u32)>>,
+    handle_ambiguous: Vec<bool>,
     cur_op: Option<usize>,
     op_rejects: Vec<u8>,
     /// C11 state per transport: index of the op that killed the handle + touches at that time
@@ -199,6 +201,7 @@ impl<'a> Model<'a> {
             server_disconnect_read: None,
             handle_flight: Vec::new(),
             handle_req: Vec::new(),
+            handle_ambiguous: Vec::new(),
             cur_op: None,
             op_rejects: Vec::new(),
             dead: vec![None; ntr],
@@ -484,15 +487,20 @@ impl<'a> Model<'a> {
         if let Some(r) = rec.request {
             if matches!(res, OpRes::Handle(_)) && !self.req_matched[r] {
                 let reqs = &self.v.trace.requests;
-                let donor = (0..reqs.len()).find(|&q| {
-                    q != r
-                        && self.req_matched[q]
-                        && reqs[q].op < reqs[r].op
-                        && reqs[q].op >= self.epoch_first_op
-                        && reqs[q].packet == reqs[r].packet
-                        && matches!(self.v.trace.ops[reqs[q].op].res, OpRes::Cancelled { .. } | OpRes::Err(ErrKind::Transport))
-                        && self.flights.iter().any(|f| f.req == Some(q) && f.epoch == self.epoch && f.first_op == Some(op))
-                });
+                // (an operation first finishes what earlier ones left half-written: its own packet
+                // is the last one that was first transmitted during it)
+                let donor = (0..reqs.len())
+                    .filter(|&q| {
+                        q != r
+                            && self.req_matched[q]
+                            && reqs[q].op < reqs[r].op
+                            && reqs[q].op >= self.epoch_first_op
+                            && reqs[q].packet == reqs[r].packet
+                            && matches!(self.v.trace.ops[reqs[q].op].res, OpRes::Cancelled { .. } | OpRes::Err(ErrKind::Transport))
+                    })
+                    .filter_map(|q| self.flights.iter().find(|f| f.req == Some(q) && f.epoch == self.epoch && f.first_op == Some(op)).map(|f| (f.seq, q)))
+                    .max()
+                    .map(|(_, q)| q);
                 if let Some(q) = donor {
                     if let Some(f) = self.flights.iter_mut().find(|f| f.req == Some(q)) {
                         f.req = Some(r);
@@ -534,6 +542,25 @@ impl<'a> Model<'a> {
                 self.handle_req.push(None);
             }
             self.handle_req[h] = rec.request.map(|r| (r, self.epoch));
+            // Requests with identical content cannot be told apart on the wire. If one of this
+            // request's twins was cancelled or failed mid-way (it may or may not have been
+            // enqueued), which packet backs this handle is a guess: its status is not judged.
+            while self.handle_ambiguous.len() <= h {
+                self.handle_ambiguous.push(false);
+            }
+            if let Some(r) = rec.request {
+                let reqs = &self.v.trace.requests;
+                self.handle_ambiguous[h] = (0..reqs.len()).any(|q| {
+                    q != r
+                        && reqs[q].op >= self.epoch_first_op
+                        && reqs[q].op < self.ops_started
+                        && reqs[q].packet == reqs[r].packet
+                        && matches!(self.v.trace.ops[reqs[q].op].res, OpRes::Cancelled { .. } | OpRes::Err(ErrKind::Transport))
+                });
+                if self.handle_ambiguous[h] {
+                    self.stats.ambiguous_handles += 1;
+                }
+            }
             let fl = rec.request.and_then(|r| self.flights.iter().position(|f| f.req == Some(r)));
             match fl {
                 Some(f) => self.handle_flight[h] = Some(f),
@@ -1361,6 +1388,9 @@ impl<'a> Model<'a> {
         for (h, st) in s.handles.iter().enumerate() {
             if let HStatus::Inconsistent(bits) = st {
                 self.bad("C18", "C18/predicates-not-exclusive", format!("handle {h}: pending/complete/invalidated = {bits:03b}"));
+                continue;
+            }
+            if self.handle_ambiguous.get(h) == Some(&true) {
                 continue;
             }
             if let (Some(None), Some(Some((r, _)))) = (self.handle_flight.get(h), self.handle_req.get(h)) {
